@@ -16,27 +16,42 @@ LEVEL_TEXT = ('Full in exact arithmetic for the modelled mechanisms. Coq theorem
               'regenerated from the AST of nonlinear_equation_solve, TrustRegionSPG.solve, bound_constrained_solve and '
               'augmented_lagrange_solve: warm start before objective.p := p_new, that assignment exactly once and before the solver '
               'call, no other store to .p, returned point is the solver\'s (times invScaling), returned flag is the solver\'s; '
-              '(d) slot laws of param_index_update on the table regenerated from its AST. The CG tolerance, JAX jvp closures and the real '
-              'solves are covered by the conclusion checks on the implementation (dense linear algebra references).')
+              '(d) slot laws of param_index_update on the table regenerated from its AST. Round 4: (e) the linear solve of '
+              'warm_start_increment is inside the model (model/M_C19_CG.v: scipy.sparse.linalg.cg as called there, tied by an exact-input '
+              'correspondence stream on every warm start and an AST check of warm_start_increment): for a linear symmetric positive definite '
+              'Hessian oracle and a symmetric positive definite preconditioner the routine flags convergence after at most n passes (full CG '
+              'conjugacy induction + a dimension lemma proved from scratch) and the increment satisfies |b - H dx| <= rtol |b|, hence '
+              '|g(x+dx,p_new)| <= |g(x,p_old)| + rtol |B(p_old-p_new)| for an affine residual with NO hypothesis on the solve left; '
+              '(f) the order property (c) for EVERY execution of the four trees (any branch outcomes, any number of loop passes, both the '
+              'return and the raise exits) from a static checker proved sound for every IR value over a big-step semantics. Not proved: '
+              'binary64 behaviour of CG (measured), that JAX delivers a linear SPD operator, the value-level success clause for the three '
+              'drivers other than nonlinear_equation_solve (that one is C01_driver_success_means_small_gradient_under_requested_parameters); '
+              'those are covered by the conclusion checks on the implementation (dense linear algebra references).')
 TECHNIQUE = 'Coq proof (by computation over a regenerated control-flow IR; abstract algebra; Coquelicot chain rule) + implementation-side conclusion checks'
 GEN = ['CFG_drivers']
-TARGETS = ['proofs/L_C19.vo', 'model/M_C19_CFG.vo', 'model/M_C19_Warm.vo']
-COQ_FILES = ['model/M_C19_CFG.v', 'model/M_C19_Warm.v', 'proofs/L_C19.v', 'props/P_C19.v']
+TARGETS = ['proofs/L_C19.vo', 'model/M_C19_CFG.vo', 'model/M_C19_Warm.vo', 'model/M_C19_CG.vo', 'model/M_C19_Sem.vo',
+           'proofs/L_C19_Dim.vo', 'proofs/L_C19_CG.vo', 'proofs/L_C19_Sem.vo', 'proofs/L_C19_All.vo']
+COQ_FILES = ['model/M_C19_CFG.v', 'model/M_C19_Warm.v', 'model/M_C19_CG.v', 'model/M_C19_Sem.v', 'proofs/L_C19.v', 'proofs/L_C19_Dim.v',
+             'proofs/L_C19_CG.v', 'proofs/L_C19_Sem.v', 'proofs/L_C19_All.v', 'props/P_C19.v']
 TRUSTED = ['Coq 8.16.1 kernel + vm_compute (no native_compute)',
            'tools/vlib/extract_drivers.py (AST -> control-flow IR / slot table; fail closed on unrecognised statements), cross-checked dynamically: '
            'event orders observed on the running drivers must be paths of the IR',
-           'path semantics of model/M_C19_CFG.v: conditions independent (superset of feasible paths), loops 0/1/2 passes, inert statements skipped',
+           'path semantics of model/M_C19_CFG.v (enumerator: conditions independent, loops 0/1/2 passes, inert statements skipped) -- only for C19_driver_order; '
+           'C19_driver_order_every_execution rests on the big-step semantics of model/M_C19_Sem.v instead (conditions independent, unbounded loops, exceptions inside callees not modelled)',
+           'model/M_C19_CG.v is a hand model of scipy 1.14 cg (not part of /repo); tied by the stream `cg` (same operator matrices, right-hand side; iterates compared) and by a check of the keyword defaults of the installed scipy',
            'harness-side sksparse shim (dense Cholesky) as preconditioner',
            'theorems are over exact reals; CG tolerance (scipy default rtol 1e-5) and binary64 rounding are covered only by the conclusion checks']
 ASSUMPTIONS = ['warm-start theorem: abelian group laws on the residual space and additivity of H and B as section hypotheses (satisfied by R^n; Example over R)',
                'scaling theorem: d_j <> 0 (the code uses sqrt of a stiffness diagonal, positive for SPD K)',
                'names stand for values in the IR: x/flag names bound by the solver call are assumed not aliased (re-binding is detected as ClobberFlag)',
-               'jax.jvp of the gradient w.r.t. a parameter slot is the parameter Jacobian (checked against jacfwd in L2)']
+               'jax.jvp of the gradient w.r.t. a parameter slot is the parameter Jacobian (checked against jacfwd in L2)',
+               'CG theorems: Hessian oracle linear, symmetric, positive definite on R^n; preconditioner symmetric positive definite (section hypotheses, satisfiable: Example with H = 2 I); exact real arithmetic']
 RULE = ('seeded parameterised energies (quadratic and smooth non-quadratic, 2-8 unknowns, both parameter slots, exact and stale '
         'preconditioners); 3-4 load steps through one ScaledObjective with a precondStrategy and one plain Objective, boundary data and design '
         'changing every step with a stiffness diagonal that changes by orders of magnitude, with/without warm start and preconditioner refresh; a case is distinct by (family, n, slot, preconditioner kind, driver, flags) and non-trivial when the parameter '
         'change is non-zero; driver event orders for every flag combination')
 IMPORTS = ['From OV.model Require Import M_C19_CFG.', 'From OV.gen Require Import CFG_drivers.']
+IMPORTS_CG = ['From OV.model Require Import M_C06_Vec M_C19_CG.']
 CG_RTOL = 1e-5
 
 
@@ -125,7 +140,33 @@ def run_warm(spec):
             obj.p = p_old
         else:                                  # identity preconditioner
             obj.precond = None
-        dx = onp.array(M['WS'].warm_start_increment(obj, x_old, p_new, idx))
+        rec = {}
+        o_cg = M['WS'].cg
+
+        def spy_cg(A, b, **kw):
+            its = []
+            cb = kw.get('callback')
+
+            def cb2(xk):
+                its.append(1)
+                if cb:
+                    cb(xk)
+            kw2 = dict(kw)
+            kw2['callback'] = cb2
+            xr, info_ = o_cg(A, b, **kw2)
+            if 'b' not in rec:
+                nn = len(b)
+                I = onp.eye(nn)
+                rec.update(b=[float(v) for v in onp.array(b)], x=[float(v) for v in onp.array(xr)], info=int(info_), iters=len(its),
+                           extra_kw=sorted(k for k in kw if k not in ('M', 'callback')),
+                           H=[[float(v) for v in row] for row in onp.array([onp.array(A.matvec(I[:, j])) for j in range(nn)]).T],
+                           P=[[float(v) for v in row] for row in onp.array([onp.array(kw['M'].matvec(I[:, j])) for j in range(nn)]).T])
+            return xr, info_
+        M['WS'].cg = spy_cg
+        try:
+            dx = onp.array(M['WS'].warm_start_increment(obj, x_old, p_new, idx))
+        finally:
+            M['WS'].cg = o_cg
     g = jax.grad(f)
     H = onp.array(jax.hessian(f)(x_old, p_old))
     J = onp.array(jax.jacfwd(lambda q: g(x_old, M['Obj'].param_index_update(p_old, idx, q)))(p_old[idx]))
@@ -142,7 +183,15 @@ def run_warm(spec):
     err = float(onp.linalg.norm(dx - ref))
     if not err <= hinv * (CG_RTOL * nb + slack) * 1.0001 + 1e-14:
         bad.append('warm-start increment differs from -H^-1 (dgrad/dp)(p_new - p_old) by %r (allowed %r)' % (err, hinv * CG_RTOL * nb))
-    info = dict(res=res, nb=nb, err=err)
+    info = dict(res=res, nb=nb, err=err, cg=rec)
+    if rec:
+        # the theorem's conclusion on the running code: scipy reports convergence (warm_start_increment never looks at the flag)
+        if rec['info'] != 0 and not res <= CG_RTOL * nb + slack:
+            bad.append('scipy cg gave up after %d passes (info=%d) and warm_start_increment returned the unconverged increment' % (rec['iters'], rec['info']))
+        if rec['extra_kw']:
+            bad.append('warm_start_increment calls cg with keywords %r that the model does not have' % rec['extra_kw'])
+    else:
+        bad.append('warm_start_increment did not call scipy.sparse.linalg.cg (WarmStart.cg)')
     if idx == 0:
         # the variant used by inverse/NonlinearSolve.py must be the same predictor
         with quiet():
@@ -478,12 +527,93 @@ def piu_impl():
     return out
 
 
+def warm_structure():
+    """AST facts of WarmStart.warm_start_increment the model M_C19_CG.warm_start_increment relies on; -> list of complaints"""
+    import ast
+    import inspect
+    M = mods()
+    out = []
+    try:
+        fn = ast.parse(inspect.getsource(M['WS'])).body
+        fd = [n for n in fn if isinstance(n, ast.FunctionDef) and n.name == 'warm_start_increment'][0]
+    except Exception as e:  # noqa: BLE001
+        return ['cannot parse WarmStart.warm_start_increment: %r' % (e,)]
+    src = {ast.unparse(n) for n in ast.walk(fd) if isinstance(n, (ast.Assign, ast.Return, ast.Lambda))}
+    want = ['dp = objective.p[index] - pNew[index]', 'b = objective.jacobian_p_vec(x, dp)', 'b = objective.jacobian_p2_vec(x, dp)',
+            'op = lambda v: objective.hessian_vec(x, v)', 'Lop = LinearOperator((sz, sz), matvec=op)',
+            'LopPrecond = LinearOperator((sz, sz), matvec=objective.apply_precond)',
+            '(dx, cgWarmStartSolveSuccess) = cg(Lop, b, M=LopPrecond, callback=callback)', 'return dx']
+    for w in want:
+        if w not in src:
+            out.append('statement `%s` not found in warm_start_increment' % w)
+    stores = [ast.unparse(n) for n in ast.walk(fd) if isinstance(n, (ast.Assign, ast.AugAssign)) and
+              any(isinstance(t, (ast.Attribute, ast.Subscript)) for t in (n.targets if isinstance(n, ast.Assign) else [n.target]))]
+    if stores:
+        out.append('warm_start_increment stores into an object: %r (the model assumes it does not modify the objective)' % stores)
+    sig = inspect.signature(M['WS'].cg)
+    dflt = {k: v.default for k, v in sig.parameters.items()}
+    if not (dflt.get('rtol') == CG_RTOL and dflt.get('atol') == 0.0 and dflt.get('maxiter') is None and dflt.get('x0') is None):
+        out.append('the installed scipy cg has defaults %r, the model assumes rtol=1e-5, atol=0, maxiter=None, x0=None' % dflt)
+    return out
+
+
+def cg_expr(rec, scale=None):
+    n = len(rec['b'])
+    H = rec['H'] if scale is None else [[v * s for v, s in zip(row, srow)] for row, srow in zip(rec['H'], scale)]
+    mat = lambda A: C.clist([C.clist([C.cf(v) for v in row]) for row in A])
+    return ('let r := @scipy_cg float NumF (matvec %s) (matvec %s) %s %d%%nat %s (F 0 0) in '
+            'fencs (fst (fst r)) ++ benc (snd (fst r)) ++ [Z.of_nat (snd r)]'
+            % (mat(H), mat(rec['P']), C.clist([C.cf(v) for v in rec['b']]), 10 * n, C.cf(CG_RTOL)))
+
+
+def cg_correspondence(ctx, recs):
+    """model/M_C19_CG.scipy_cg in binary64 on the very operator matrices / right-hand sides of the observed warm starts"""
+    import numpy as onp
+    r = ctx.rng('cgpert')
+    ex = []
+    for spec, rec in recs:
+        n = len(rec['b'])
+        pert = [[1.0 + r.choice([-1, 0, 1]) * 2.0 ** -52 for _ in range(n)] for _ in range(n)]
+        ex += [cg_expr(rec), cg_expr(rec, pert)]
+    res = C.coq_eval(IMPORTS_CG, ex, 'C19cg')
+    for k, (spec, rec) in enumerate(recs):
+        n = len(rec['b'])
+        dec = lambda z: (onp.array(C.dec_floats(z[:2 * n])), bool(z[2 * n]), int(z[2 * n + 1]))
+        xm, okm, km = dec(res[2 * k])
+        xp, okp, kp = dec(res[2 * k + 1])
+        xi, oki, ki = onp.array(rec['x']), rec['info'] == 0, rec['iters']
+        ctx.count('cg_model_runs')
+        if ki > n:
+            ctx.count('cg_passes_beyond_n_binary64')
+        nx = float(onp.linalg.norm(xm))
+        stable = okm == okp and km == kp and float(onp.linalg.norm(xm - xp)) <= 1e-9 * nx
+        if not stable:
+            ctx.count('cg_unstable_under_one_ulp_noise')
+            continue
+        case = dict(spec)
+        if oki != okm or abs(ki - km) > 1:
+            ctx.fail('correspondence', 'scipy cg inside warm_start_increment: info==0 is %s after %d passes, the model says %s after %d (case %s)'
+                     % (oki, ki, okm, km, {k_: v for k_, v in spec.items() if k_ != 'kind'}), case=case)
+        elif ki != km:
+            ctx.count('cg_pass_count_off_by_one')
+        elif not float(onp.linalg.norm(xm - xi)) <= 1e-6 * nx + 1e-300:
+            ctx.fail('correspondence', 'scipy cg inside warm_start_increment returns %r, the model %r after the same %d passes (case %s)'
+                     % (list(xi), list(xm), km, {k_: v for k_, v in spec.items() if k_ != 'kind'}), case=case)
+        else:
+            ctx.count('cg_agree')
+
+
 def correspondence(ctx, model_ok):
     distinct = set()
     specs = warm_specs(ctx) + scaled_specs(ctx) + steps_specs(ctx) + driver_specs(ctx)
     observed = {}
+    cg_recs = []
+    for w in warm_structure():
+        ctx.fail('structure', 'WarmStart.warm_start_increment no longer has the shape the model was written for: ' + w, case=dict(kind='structure'))
     for spec in specs:
         bad, info = run_spec(spec)
+        if spec['kind'] == 'warm' and info.get('cg'):
+            cg_recs.append((spec, info.pop('cg')))
         ctx.count('evaluations')
         ctx.count(spec['kind'] + '_cases')
         distinct.add(tuple(sorted((k, str(v)) for k, v in spec.items() if k != 'seed')))
@@ -499,6 +629,8 @@ def correspondence(ctx, model_ok):
         if row != want:
             ctx.fail('conclusion', 'param_index_update(p, %d, v) = %r, slot law requires %r' % (i, row, want), case=dict(kind='piu', index=i), concrete=True)
     ctx.count('evaluations', len(pi))
+    if model_ok and cg_recs:
+        cg_correspondence(ctx, cg_recs)
     if model_ok:
         zl = lambda l: '[' + '; '.join('(%d)%%Z' % v for v in l) + ']'
         ex = ['flat_map (fun p => map (fun t => Z.of_nat (tag_code t)) (fst p) ++ [(-1)%%Z]) (paths %s)' % CFG_NAME[d] for d in ('nes', 'spg', 'al', 'bcs')]
